@@ -189,6 +189,26 @@ def check(ctx):
         okd = okd and not channels.enclosing_loops(allmk[0], work.node)
     run.check(okd, 'R21', work.where, work.qualname, '(d) take one; marker -> stop; else apply once, forward the row once; finally: one marker',
               'a worker drops or duplicates a row, or does not emit exactly one end marker on every exit')
+    # ---- (i) the row function is applied by the workers only (who-may-call): a call anywhere else - a probe in the consumer, a
+    #      pre-check in the producer - applies it a second time to rows that also go through a worker
+    applied_in_w = [c for c in ast.walk(work.node) if isinstance(c, ast.Call) and pseudo(c.func) in work.params
+                    and not isinstance(W.env.get(pseudo(c.func)), channels.Chan)]
+    root_fn = {W.resolve(c.func) for c in applied_in_w}
+    oki = len(root_fn) == 1
+    if oki:
+        rf = list(root_fn)[0]
+        for a_ in model.actors:
+            if a_ is W:
+                continue
+            for c in ast.walk(a_.fi.node):
+                if isinstance(c, ast.Call) and pseudo(c.func) and a_.resolve(c.func) == rf and \
+                        (a_ is C or pseudo(c.func) in a_.fi.params):
+                    run.fail('R21', where(repo, c), a_.fi.qualname, '(i) %s outside the workers' % u(c)[:80],
+                             'the row function is also applied outside the worker processes: rows it is applied to here and '
+                             'that go through a worker as well are processed twice')
+                    oki = False
+    if oki:
+        run.ok('R21', work.where, '(i) the row function is called by the workers only')
     # ---- (e) collector
     oke = len(floop) == 1 and cnt is not None
     if oke:
